@@ -162,7 +162,7 @@ PROPS = {
         partial=["Props/MachineObjects.lean proves on the whole machine, for every program and every number of steps, that an until-scope keeps its owner, its notification and its interrupt signal (scope_listens_forever); until_exit_time (body abandoned and children closed in the trigger's time step) is not proved: judge + correspondence only"],
     ),
     'C08': dict(
-        gen=['Tracked', 'Timing'], props=['C08', 'MachineStructure'], model=['Machine/Run', 'Machine/Step', 'Machine/Kernel', 'Judge/Judges', 'Lemmas/KView', 'Lemmas/OView', 'Lemmas/CView', 'Lemmas/CStepFrames', 'Lemmas/CStep'], harness='c08',
+        gen=['Tracked', 'Timing'], props=['C08', 'MachineStructure', 'MachineAwait'], model=['Machine/Run', 'Machine/Step', 'Machine/Kernel', 'Judge/Judges', 'Lemmas/KView', 'Lemmas/OView', 'Lemmas/CView', 'Lemmas/CStepFrames', 'Lemmas/CStep'], harness='c08',
         trusted_base=KERNEL_TB + MACHINE_TB + ['coroutine skeletons pinned by regenerated templates (context.py, task.py, timing/notification/condition/flag, tracked.py)'],
         assumptions=['valid programs only: the generators avoid usage errors (past at= dates, negative delays, inverting a Moment)'],
         partial=['Props/MachineStructure.lean proves on the whole machine, for every program and every number of steps, that a condition object keeps its class and operands (condition_shape_forever, connective_children_forever, inverse_forever) and that the listeners of a tracked value / resource level are never dropped or reordered (tracked_listeners_append_only, resource_listeners_append_only); truth_at_resume and no-lost-wake-up are not proved on the machine: judge + correspondence only (F8: false for nested connectives)'],
@@ -385,7 +385,7 @@ MANIFEST_TEXT = {
         technique='Lean 4 theorems (decision logic / per-primitive / frame level) + exact whole-machine differential traces + Lean trace judge',
         design_ref='6 (C07), 3, 4.B'),
     'C08': dict(
-        level='On the whole machine, for every program and every number of steps: condition_shape_forever, connective_children_forever, inverse_forever, tracked_listeners_append_only, resource_listeners_append_only (Props/MachineStructure.lean, seventh per-function inventory). Lean 4 theorems: invert_negates/invert_all/invert_any (~c is not c for every expression tree and valuation: De Morgan at any depth, After/Before, Eternity/Instant, operator table translated from tracked.py), double_inversion, eval_and/eval_or; invert_reslevel_not_negation (F13). The executable whole-machine model reproduces the real usim to the turn on scope trees and random valid programs with faults at every activation boundary; the Lean judge checks on every implementation trace: every await returns with its condition true, no waiter is left waiting at quiescence with a true condition, bool() of derived conditions equals the boolean-algebra reading.',
+        level='The wait loop of `await c` on the whole machine, for every world (Props/MachineAwait.lean): await_stays_while_false, await_completes_when_true, await_completes_only_when_true (the loop head returns only in a world in which the condition evaluates true), connective_completes_when_true. On the whole machine, for every program and every number of steps: condition_shape_forever, connective_children_forever, inverse_forever, tracked_listeners_append_only, resource_listeners_append_only (Props/MachineStructure.lean, seventh per-function inventory). Lean 4 theorems: invert_negates/invert_all/invert_any (~c is not c for every expression tree and valuation: De Morgan at any depth, After/Before, Eternity/Instant, operator table translated from tracked.py), double_inversion, eval_and/eval_or; invert_reslevel_not_negation (F13). The executable whole-machine model reproduces the real usim to the turn on scope trees and random valid programs with faults at every activation boundary; the Lean judge checks on every implementation trace: every await returns with its condition true, no waiter is left waiting at quiescence with a true condition, bool() of derived conditions equals the boolean-algebra reading.',
         note='trusted: Lean kernel + standard axioms; templates/translator; whole-machine model tied by exact traces; truth_at_resume and no-lost-wake-up are not proved on the machine: judge + correspondence only (F8: false for nested connectives)',
         technique='Lean 4 theorems (decision logic / per-primitive / frame level) + exact whole-machine differential traces + Lean trace judge',
         design_ref='6 (C08), 3, 4.B'),
